@@ -469,7 +469,12 @@ def _real_run(arg):
                 # kept residues are skipped by the walk, and forced failures make it rewind across such skipped steps
                 top = wd / "mix.top"
                 top.write_text(Y_TOP % (6, 2, 2))
-                gen_coords(toppath=top, outpath=wd / "full.gro", name="t", box=np.array(box, float), max_force=5e4, nrewind=5, step_fudge=1.0)
+                try:
+                    gen_coords(toppath=top, outpath=wd / "full.gro", name="t", box=np.array(box, float), max_force=5e4, nrewind=5, step_fudge=1.0)
+                except _Timeout:
+                    return {"noverdict": "timeout"}
+                except Exception as exc:
+                    return {"inst": None, "evs": [], "error_in_code": "first (unmonitored) run: %s: %s" % (type(exc).__name__, exc)}
                 # the coordinate file of the second run: rows of the residues named with -res are left out (the reader does not expect them),
                 # and a coordinate that the three-decimal format rounded onto the box edge is wrapped back into [0, box)
                 rows = (wd / "full.gro").read_text().splitlines()
